@@ -592,6 +592,14 @@ def fam_ids(out, tier, rnd):
             w.publish(A, "t", "m", 2); m = mid_of(w)
             if m > 0:
                 w.recv(A, W.ack("PUBREC", m))
+        elif kind == "pub1rec":               # a QoS 1 publish answered with the wrong kind of acknowledgement: still unfinished
+            w.publish(A, "t", "m", 1); m = mid_of(w)
+            if m > 0:
+                w.recv(A, W.ack("PUBREC", m))
+        elif kind == "pub2comp":              # a QoS 2 publish answered with PUBCOMP before any PUBREC: still unfinished
+            w.publish(A, "t", "m", 2); m = mid_of(w)
+            if m > 0:
+                w.recv(A, W.ack("PUBCOMP", m))
         elif kind == "sub":
             w.subscribe(A, [("s/%d" % w.n, 1)])
         elif kind == "unsub":
@@ -601,6 +609,8 @@ def fam_ids(out, tier, rnd):
     runs = list(itertools.product(kinds, repeat=3 if tier == "thorough" else 2))
     if tier == "quick":
         runs += [("sub", "pub1", "unsub"), ("rel", "pub1", "sub"), ("unsub", "sub", "rel"), ("pub2", "rel", "pub1")]
+    # acknowledgements that do not fit the exchange leave the request unfinished (round 13)
+    runs += [("pub1rec", "pub1"), ("pub1", "pub1rec"), ("pub2comp", "pub1rec"), ("pub1rec", "pub2comp", "rel")]
     for prof in ("both", "pub"):
         for first in (1, 65534, 65535, 300):
             if tier == "quick" and prof == "pub" and first != 65535:
@@ -1118,6 +1128,22 @@ def fam_corners(out, tier, rnd):
                     if w.t[A].phase != "lost":
                         w.lost(A, "done")
                     drain(w, 3); out.done(w)
+    # (c) a QoS 2 exchange whose acknowledgements arrive out of order: PUBCOMP before any PUBREC (stale, from an earlier use of
+    # the identifier), optionally a timer expiry, then the exchange proper                                       (round 13)
+    for prof in ("pub", "both"):
+        for nexp in (0, 1):
+            for clean in (True, False):
+                w = out.world(prof)
+                w.build(A); w.set(A, "onDisconnection", 1); w.set(A, "window", 2)
+                w.connect(A, keepalive=0, cleanStart=clean); w.recv(A, W.connack(0, 0))
+                w.publish(A, "t", "q2", 2); m = mid_of(w)
+                w.recv(A, W.ack("PUBCOMP", m))
+                if nexp and w.due() and w.in_range(w.due()[0]):
+                    w.fire(w.due()[0])
+                w.publish(A, "t", "next", 1); m2 = mid_of(w)
+                w.recv(A, W.ack("PUBREC", m)); w.recv(A, W.ack("PUBACK", m2)); w.recv(A, W.ack("PUBCOMP", m))
+                w.lost(A, "done")
+                drain(w, 3); out.done(w)
     for prof in ("sub", "both"):
         for kind in ("subscribe", "unsubscribe"):
             for how in ("shrunk", "resumed"):
